@@ -1,6 +1,7 @@
 /- Driver handlers for the character-level model of CFG.to_text / from_text. -/
 import PflDrv.Json
 import Pfl.Model.TextCodec
+import Pfl.Model.Ebnf
 open Lean Pfl
 namespace PflDrv
 
@@ -36,6 +37,10 @@ def txtHandle (op : String) (j : Json) : R Json := do
   | "txt.fromText" =>
     let texts ← asStrList (← field j "texts")
     pure (jList (fun (t : String) => jOpt (jList jTProd) (TextCodec.fromText t.toList)) texts)
+  | "txt.ebnf" =>     -- the `productions` dict of RecursiveAutomaton.from_ebnf: head -> text handed to Regex
+    let texts ← asStrList (← field j "texts")
+    pure (jList (fun (t : String) => jOpt (jList (fun (e : List Char × List Char) =>
+      Json.arr #[jStr (String.ofList e.1), jStr (String.ofList e.2)])) (Ebnf.bodies t.toList)) texts)
   | "txt.split" =>
     let texts ← asStrList (← field j "texts")
     pure (jList (fun (t : String) => Json.mkObj [
